@@ -280,6 +280,43 @@ def rule_value(ctx, px, root):
                "" if not coll else f"crc32 collision between {coll}")
 
 
+def rule_fold(ctx, px):
+    R = "R-C17-VALUE"
+    # (shares the rule text of R-C17-VALUE: distinct option values must stay distinct up to the compared constant)
+    for lang in ("c", "cpp"):
+        cls = px.cls(f"nunavut.lang.{lang}", "Language")
+        m = cls.methods.get("_validate_language_options")
+        if m is None:
+            ctx.ob(R, cls.module.rel, f"{lang}: language options reach the templates as configured (no per-language rewriting hook)", True,
+                   "Language._validate_language_options is not overridden")
+            continue
+        params = [a.arg for a in m.node.args.args]
+        opt = params[2] if len(params) > 2 else "options"
+        folds = []
+        for st, gd in pyfront.walk_guarded(m.node.body):
+            stores = []
+            if isinstance(st, ast.Assign) and isinstance(st.targets[0], ast.Subscript) and ast.unparse(st.targets[0].value) == opt:
+                stores.append((st.targets[0].slice, st.value))
+            if isinstance(st, ast.Expr) and isinstance(st.value, ast.Call) and isinstance(st.value.func, ast.Attribute) and ast.unparse(st.value.func.value) == opt \
+                    and st.value.func.attr == "update" and st.value.args and isinstance(st.value.args[0], ast.Dict):
+                stores += list(zip(st.value.args[0].keys, st.value.args[0].values))
+            if isinstance(st, ast.Expr) and isinstance(st.value, ast.Call) and isinstance(st.value.func, ast.Attribute) and ast.unparse(st.value.func.value) == opt \
+                    and st.value.func.attr == "setdefault":
+                continue    # fills an absent option only
+            for key, val in stores:
+                val_n = pyfront.subst_locals(m.node, val)
+                depends = any(isinstance(x, ast.Name) and x.id in params[1:] for x in ast.walk(val_n))
+                k = ast.unparse(key)
+                terms = pyfront.guard_terms(gd)
+                absent = any((e in (f"{k} not in {opt}", f"{opt}.get({k}) is None") and pol) or (e in (f"{k} in {opt}",) and not pol) for e, pol in terms)
+                if not depends and not absent:
+                    folds.append((k, ast.unparse(val), terms, st.lineno))
+        ok = not folds
+        ctx.ob(R, m.module.rel, f"{lang}: {m.short} stores no fixed value over a configured option", ok,
+               "" if ok else "; ".join(f"options[{k}] = {v} under {t}: several configured values of the option are folded into one, so headers generated with "
+                                       "different values carry the same constant and compile together" for k, v, t, _ in folds), folds[0][3] if folds else m.node.lineno)
+
+
 def run(ctx):
     ctx.explanation = (
         "C17 is decided as a sibling-agreement check over the template ASTs: the loop that defines the per-option "
@@ -294,3 +331,4 @@ def run(ctx):
     rule_both_sides(ctx, ts)
     rule_include_scope(ctx, px)
     rule_value(ctx, px, ctx.root)
+    rule_fold(ctx, px)
